@@ -13,7 +13,10 @@
 (*             the end of the last chunk that occurs for the first time    *)
 (*             (the source ends with a repeated chunk)                     *)
 (*   force, inplace   --force-create, --seed-output                        *)
-(*   arch      "valid" | "invalid"   (header fails validation)             *)
+(*   arch      "valid" | "invalid" (the header checksum does not verify)   *)
+(*             | "invalid_dict" (the checksum verifies but the dictionary  *)
+(*             is inconsistent: a zero-size descriptor nothing refers to   *)
+(*             that shares its checksum with a chunk in use)               *)
 (*   pin       "none" | "match" | "mismatch"   (--verify-header)           *)
 (*   nseeds, stdin_seed, verify_out, transport  ("local" | "http")         *)
 (*   out       also "empty": an existing regular file of length zero (as    *)
@@ -60,7 +63,7 @@ ExistsAtOpen(mm) == Exists(mm) \/ mm.race = "appears"
 \* why (if at all) the command refuses to proceed
 Refusal(mm) ==
   IF mm.cmd = "compress" THEN (IF ExistsAtOpen(mm) /\ ~mm.force THEN "exists" ELSE "none")
-  ELSE IF mm.arch = "invalid" THEN "archive"
+  ELSE IF mm.arch # "valid" THEN "archive"
   ELSE IF mm.pin = "mismatch" THEN "pin"
   ELSE IF ExistsAtOpen(mm) /\ ~mm.force /\ ~mm.inplace THEN "exists"
   ELSE IF TooSmall(mm) THEN "bd_small"
@@ -80,7 +83,7 @@ Touch(role, how) == touched' = touched \cup {<<role, how>>}
 Finish(code) == pc' = "end" /\ exit' = code
 
 InitArchive == /\ pc = "init_archive" /\ Touch("archive", "read_open")
-               /\ IF m.arch = "invalid" THEN Finish(1) ELSE pc' = "check_pin" /\ UNCHANGED exit
+               /\ IF m.arch # "valid" THEN Finish(1) ELSE pc' = "check_pin" /\ UNCHANGED exit
                /\ UNCHANGED <<m, outstate, appeared>>
 CheckPin == /\ pc = "check_pin"
             /\ IF m.pin = "mismatch" THEN Finish(1) ELSE pc' = "open_output" /\ UNCHANGED exit
